@@ -10,6 +10,7 @@ def run(res, tier, replay=None):
     c15.run_c(prog, res)
     c15.run_d(prog, res)
     c15.run_e(prog, res)
+    c15.run_f(prog, res)
     cg = callgraph.CallGraph(prog)
     recursion.run(prog, res, "C15", "C15.b", roots=["sexp_equalp_op", "sexp_hash"], floor=2, cg=cg)
     res.assumptions = common.ASSUMPTIONS
@@ -24,5 +25,6 @@ def run(res, tier, replay=None):
             "C15.c": lambda p, r: c15.run_c(p, r),
             "C15.d": lambda p, r: c15.run_d(p, r),
             "C15.e": lambda p, r: c15.run_e(p, r, floor=0),
+            "C15.f": lambda p, r: c15.run_f(p, r, floor=0),
             "C15.b": lambda p, r: recursion.run(p, r, "C15", "C15.b", roots=["sexp_equalp_op", "sexp_hash"], floor=0),
         })
